@@ -45,7 +45,23 @@ class Unit:
             dim, q, syms = u.dim, u.q, u.syms
         self.dim = tuple(dim)
         self.q = Fraction(q)
-        self.syms = tuple(sorted((k, Fraction(v)) for k, v in (syms or {}).items() if v != 0)) if not isinstance(syms, tuple) else syms
+        if isinstance(syms, tuple):
+            self.syms = syms
+        else:
+            d = {k: Fraction(v) for k, v in (syms or {}).items() if v != 0}
+            # '#p' stands for the prime p (irrational scale factors such as sqrt(10) of sqrt(mm*m)): keep only the
+            # fractional part of its exponent, integer powers are folded into q (keeps equality syntactic)
+            for k in [k for k in d if k.startswith('#')]:
+                e = d[k]
+                whole = e.numerator // e.denominator
+                if whole:
+                    self.q *= Fraction(int(k[1:])) ** whole
+                    e -= whole
+                if e:
+                    d[k] = e
+                else:
+                    del d[k]
+            self.syms = tuple(sorted(d.items()))
         self._h = None
 
     # -- algebra
@@ -80,11 +96,14 @@ class Unit:
 
     def __pow__(self, n):
         n = Fraction(n)
+        d = {k: v * n for k, v in self.syms}
         if n.denominator == 1:
             q = self.q ** int(n)
         else:
-            q = _frac_root(self.q, n)
-        return Unit(tuple(a * n for a in self.dim), q, {k: v * n for k, v in self.syms})
+            q, primes = _frac_root(self.q, n)
+            for p_, e_ in primes.items():
+                d[f'#{p_}'] = d.get(f'#{p_}', 0) + e_
+        return Unit(tuple(a * n for a in self.dim), q, d)
 
     def __eq__(self, o):
         if isinstance(o, str):
@@ -113,7 +132,7 @@ class Unit:
     def scale_rat(self) -> T.Rat:
         r = T.Rat.const(self.q)
         for k, e in self.syms:
-            s = T.var(k, sign='+')
+            s = T.Rat.const(Fraction(int(k[1:]))) if k.startswith('#') else T.var(k, sign='+')
             if e.denominator == 1:
                 r = r * s ** int(e)
             elif e.denominator == 2:
@@ -151,17 +170,33 @@ class Unit:
         return Unit(like.dim, 1, {name: 1})
 
 
+def _factor(n: int) -> dict:
+    out = {}
+    p = 2
+    while p * p <= n and p < 2_000_000:
+        while n % p == 0:
+            out[p] = out.get(p, 0) + 1
+            n //= p
+        p += 1 if p == 2 else 2
+    if n > 1:
+        out[n] = out.get(n, 0) + 1
+    return out
+
+
 def _frac_root(q: Fraction, n: Fraction):
-    # q ** n for n = a/2
+    """q ** n for n = a/2 -> (rational part, {prime: fractional exponent}); real scipp keeps irrational scales."""
     if n.denominator != 2:
         raise NotImplementedError
-    from math import isqrt
-
-    a, b = q.numerator, q.denominator
-    ra, rb = isqrt(a), isqrt(b)
-    if ra * ra != a or rb * rb != b:
-        raise UnitError(f'irrational unit scale sqrt({q})')
-    return Fraction(ra, rb) ** int(n.numerator)
+    rat = Fraction(1)
+    primes = {}
+    for base, sgn in ((q.numerator, 1), (q.denominator, -1)):
+        for p_, e_ in _factor(base).items():
+            ex = Fraction(e_ * sgn) * n
+            whole = ex.numerator // ex.denominator
+            rat *= Fraction(p_) ** whole
+            if ex - whole:
+                primes[p_] = primes.get(p_, 0) + (ex - whole)
+    return rat, {p_: e_ for p_, e_ in primes.items() if e_}
 
 
 # ---- table -----------------------------------------------------------------
